@@ -227,7 +227,11 @@ func (ex *Exec) finishPath(st *State) {
 	case "violation":
 		var model Model
 		if r := ex.check(st.pc, nil); r == Sat {
-			model = ex.smallModel(st)
+			if f.Kind == "unwind" || f.Kind == "steplimit" {
+				model = ex.greedyModel(st) // a loop driven by input: prefer the input that makes it run longest
+			} else {
+				model = ex.smallModel(st)
+			}
 		} else if r == Unsat {
 			ex.out.Infeasible++
 			return
@@ -292,6 +296,42 @@ func (ex *Exec) preferSmall(st *State, extra *Term, first Model) Model {
 		ex.donePending()
 	}
 	return first
+}
+
+// greedyModel: for unbounded-loop findings the witness should make the native run visibly long. Heuristic: push the
+// symbolic inputs towards their largest values one after the other (counts and varint continuation bits grow),
+// keeping the path condition satisfiable; at most 64 extra queries of 2 s.
+func (ex *Exec) greedyModel(st *State) Model {
+	extra := tTrue
+	n := 0
+	for _, in := range st.inputs {
+		if in.Kind == "Choose" {
+			continue
+		}
+		for _, v := range in.Vars {
+			if n >= 64 || v.IsConst() || v.W == 0 {
+				continue
+			}
+			n++
+			try := ex.tt.And(extra, ex.tt.Eq(v, C(v.W, mask(v.W))))
+			if ex.checkT(st.pc, try, 2000) == Sat {
+				extra = try
+			}
+			ex.donePending()
+		}
+	}
+	if ex.checkT(st.pc, extra, 5000) == Sat {
+		var m Model
+		if ex.lastFromAlt {
+			m = ex.alt.GetModel(ex.tt.Vars)
+		} else {
+			m = ex.solver.GetModel(ex.tt.Vars)
+		}
+		ex.donePending()
+		return m
+	}
+	ex.donePending()
+	return ex.smallModel(st)
 }
 
 func (ex *Exec) smallModel(st *State) Model {
